@@ -42,7 +42,7 @@ func NewK8sCacheStore(gatewayClient gatewayclientset.Interface, syncPeriod time.
 }
 
 type objectStore struct {
-	sync.Mutex
+	sync.RWMutex
 	id            int
 	shard         int
 	shardCount    int
@@ -65,6 +65,10 @@ func (s *objectStore) Save(cluster string, condition *proxyv1alpha1.RateLimitCon
 
 	klog.V(5).Infof("Save upstream %s condition %s to store %v", cluster, condition.Name, s.shard)
 	if s.syncPeriod == 0 {
+		// do not interleave with a running flush, which would overwrite this update with its older snapshot
+		s.RLock()
+		defer s.RUnlock()
+
 		var err error
 		condition, err = s.createOrUpdate(condition)
 		if err != nil {
